@@ -235,18 +235,18 @@ Qed.
    length than announced, contributes nothing; with only such upstreams the answer is NOT_FOUND *)
 Lemma fetch_item_corrupt_rejected c d u h d' r :
   fetch_item c d u (Some h) = (d', r) -> 0 <= up_cl u ->
-  corrupt (up_body u) (up_cl u) -> ~ empty_claim h (up_cl u) (b_len (up_body u)) -> r = None.
+  corrupt (up_body u) (up_cl u) -> ~ empty_claim h (up_cl u) (b_len (up_body u)) -> forall dg, r <> Ok dg.
 Proof.
-  intros H HCL HC HE. unfold fetch_item in H. destruct (negb (up_ok u)); [inversion H; reflexivity|].
+  intros H HCL HC HE dg ->. unfold fetch_item in H. destruct (negb (up_ok u)); [inversion H|].
   replace (up_cl u <? 0) with false in H by lia.
-  destruct (disk_put c d CAS h (up_cl u) (stream_of (up_body u)) (up_rnd u)) as [d1 [e|]] eqn:HP; [inversion H; reflexivity|].
-  exfalso. destruct (disk_put_ok _ _ _ _ _ _ _ HP) as [(_ & L)|(S1 & S2 & S3)].
+  destruct (disk_put c d CAS h (up_cl u) (stream_of (up_body u)) (up_rnd u)) as [d1 [e|]] eqn:HP; [inversion H|].
+  destruct (disk_put_ok _ _ _ _ _ _ _ HP) as [(_ & L)|(S1 & S2 & S3)].
   - exact (corrupt_not_good _ _ HC (stream_of_good _ _ L)).
   - apply HE. unfold empty_claim. cbn in S3. auto.
 Qed.
 
 Lemma fetch_item_unknown_length_wrong_hash c d u h :
-  up_cl u < 0 -> up_actual u <> h -> fetch_item c d u (Some h) = (d, None).
+  up_cl u < 0 -> up_actual u <> h -> fetch_item c d u (Some h) = (d, Err ENotFound).
 Proof.
   intros HCL HH. unfold fetch_item. destruct (negb (up_ok u)); [reflexivity|].
   replace (up_cl u <? 0) with true by lia. destruct (negb (b_clean (up_body u))); [reflexivity|].
